@@ -203,7 +203,13 @@ func (x *Exec) frameCheck(st *State, penv *Env) {
 		}
 		entry := Const(name, s)
 		var goal *Term
-		if s.Idx.Kind == SInt && !strings.HasPrefix(name, "S|") {
+		if name == "G|world" {
+			// the world token is the single cell 0
+			if len(allowed[name]) > 0 || (c.Determ && !c.Pure && !c.NoWorld) {
+				continue
+			}
+			goal = Eq(Select(cur, IntLit(0)), Select(entry, IntLit(0)))
+		} else if s.Idx.Kind == SInt && !strings.HasPrefix(name, "S|") {
 			a := Const(freshName("frameaddr"), IntS)
 			var pre []*Term
 			pre = append(pre, Le(IntLit(1), a), Le(a, st.top0))
